@@ -71,7 +71,7 @@ def run(ck):
     require(ck, "G", "map_indexes:LeafIndexOutOfBounds", m, "for every position (or for the largest one): reject iff index >= 2^depth", strength=("per-iteration", "always"))
     m = [g for g in errs("DuplicateLeafIndex") if match_cmp(g, ("!=",), has_param("indexes"), anything)]
     require(ck, "G", "map_indexes:DuplicateLeafIndex", m, "reject iff the position list contains duplicates (map size differs from list size)")
-    m = [g for g in errs("InvalidProof") if g.fn is gr and match_cmp(g, ("!=",), has_callee("normalize_indexes"), has_field("BatchMerkleProof", "nodes"))]
+    m = [g for g in errs("InvalidProof") if _own(g, gr) and match_cmp(g, ("!=",), has_callee("normalize_indexes"), has_field("BatchMerkleProof", "nodes"))]
     require(ck, "G", "get_root:node-vector-count", m, "reject iff the number of node vectors differs from the number of normalised positions")
     opening_fully_used(ck, prog, mg, "G")
     m = [g for g in gs if g.kind == "call" and (g.callee or "").endswith("merkle::map_indexes")]
@@ -95,6 +95,11 @@ def run(ck):
     leaf_order(ck, prog)
 
 
+def _own(g, gr):
+    """the decision is made in get_root itself or in a private helper of the same type it delegates its shape checks to"""
+    return g.fn is gr or (g.fn.crate == gr.crate and g.fn.get("vis") != "pub" and g.fn.get("impl_self_adt") == gr.get("impl_self_adt"))
+
+
 def opening_fully_used(ck, prog, mg=None, rule="G"):
     """every part of a batch opening is used: one leaf per position, and every node of every node vector consumed — a surplus leaf or node
     is bound to nothing, yet it is decoded content of the proof (and surplus rows reach an assertion of the DEEP composer). Shared by C10
@@ -107,25 +112,25 @@ def opening_fully_used(ck, prog, mg=None, rule="G"):
         return [g for g in gs if g.kind == "switch" and v in g.errs]
     # every part of the opening is used: one leaf per position, and every node of every node vector consumed — a surplus leaf or node
     # is bound to nothing, yet it is decoded content of the proof (and surplus rows reach an assertion of the DEEP composer)
-    m = [g for g in errs("InvalidProof") if g.fn is gr and match_cmp(g, ("!=",), has_param("indexes"), has_field("BatchMerkleProof", "leaves"))]
+    m = [g for g in errs("InvalidProof") if _own(g, gr) and match_cmp(g, ("!=",), has_param("indexes"), has_field("BatchMerkleProof", "leaves"))]
     require(ck, rule, "get_root:one-leaf-per-position", m, "reject iff the number of leaves in the opening differs from the number of positions")
     m = []
     for g in errs("InvalidProof"):
-        if g.fn is not gr or g.cond.kind != "call" or not (callee_name(g.cond.call) or "").endswith(("Iterator::any", "Iterator::all")):
+        if not _own(g, gr) or g.cond.kind != "call" or not (callee_name(g.cond.call) or "").endswith(("Iterator::any", "Iterator::all")):
             continue
         w = flow(gr).walk(ops=g.cond.call["args"][:1], at=g.cond.node)
         if ("f", BMP, "nodes") in w or any(n[0] == "f" and n[2] == "nodes" for n in w):
             m.append(g)
     if not m:
         # the explicit-loop form: a per-iteration decision comparing a consumed count with the length of a node vector
-        m = [g for g in errs("InvalidProof") if g.fn is gr and match_cmp(g, ("!=", "<", ">"), anything, has_field("BatchMerkleProof", "nodes")) and
+        m = [g for g in errs("InvalidProof") if _own(g, gr) and match_cmp(g, ("!=", "<", ">"), anything, has_field("BatchMerkleProof", "nodes")) and
              not match_cmp(g, ("!=",), has_callee("normalize_indexes"), has_field("BatchMerkleProof", "nodes"))]
     require(ck, rule, "get_root:all-nodes-used", m, "reject iff some node vector of the opening was not consumed to its end",
             strength=("always", "per-iteration"))
     if rule != "G":
         # (C10's own inventory states this guard itself) a surplus node VECTOR is unbound decoded content just like a surplus node: the count
         # of node vectors is compared with the number of normalised positions (the per-vector check above stops at the shorter list)
-        m = [g for g in errs("InvalidProof") if g.fn is gr and match_cmp(g, ("!=",), has_callee("normalize_indexes"), has_field("BatchMerkleProof", "nodes"))]
+        m = [g for g in errs("InvalidProof") if _own(g, gr) and match_cmp(g, ("!=",), has_callee("normalize_indexes"), has_field("BatchMerkleProof", "nodes"))]
         require(ck, rule, "get_root:node-vector-count", m, "reject iff the number of node vectors differs from the number of normalised positions")
 
 
